@@ -60,7 +60,9 @@ package auth
 //@ ensures C18-no-applicable-rule-permits: !userMatch(l, cl, topic) && (forall k int :: 0 <= k && k < len(l.ACL) ==> !applies(l, cl, topic, k)) ==> n == 0 && ok
 // the user's own rules (map range 1); the global rules in list order (loop 2) with their three filter scans (map ranges 2-4)
 // verif:loop auth.Ledger.ACLOk 1
-//@ invariant forall f RString :: visited1[f] ==> !fmatch(f, topic)
+//@ invariant no-granting-match-so-far: forall f RString :: visited1[f] && fmatch(f, topic) ==> !grants(uacl(l, cl)[f], write)
+//@ invariant matched-has-a-witness: matched ==> (exists f RString :: visited1[f] && has(uacl(l, cl), f) && fmatch(f, topic))
+//@ invariant unmatched-means-none: !matched ==> (forall f RString :: visited1[f] ==> !fmatch(f, topic))
 // verif:loop auth.Ledger.ACLOk 2
 //@ invariant forall j int :: 0 <= j && j <= rangeindex ==> !applies(l, cl, topic, j)
 // verif:loop auth.Ledger.ACLOk 3
